@@ -164,6 +164,44 @@ func runHistory(r *Run, g *Gen, hc histCfg) {
 			}
 		case 1: // modify
 			s := live[r.Ch.Choose(len(live), "sess")]
+			if !hc.up4 && !armKill && s.FAR(2) != nil && r.Ch.Choose(8, "half-way") == 1 {
+				// A modification that is refused half-way (its Update FAR is written, then
+				// its Remove PDR names an unknown rule), followed by an accepted Update FAR
+				// that states the FAR as it was: after that one the datapath must hold the
+				// FAR the control plane stated last, whatever the refused request had written.
+				was := *s.FAR(2)
+				was.EndMarker = false
+				was.HasFwd = true // (the agent refuses an Update FAR without Update Forwarding Parameters)
+				g.nextTEID++
+				other := FARSpec{ID: 2, Action: ActFORW, DstIface: IfAccess, HasFwd: true, HasOHC: true, TEID: g.nextTEID, PeerIP: g.gnbs[r.Ch.Choose(len(g.gnbs), "gnb")]}
+				if was.HasOHC && r.Ch.Choose(2, "hw-kind") == 1 {
+					other = FARSpec{ID: 2, Action: ActBUFF | ActNOCP, DstIface: IfAccess, HasFwd: true}
+				}
+				m1 := &ModSpec{UpdateFAR: []*FARSpec{&other}, RemovePDR: []uint16{999}, Tag: "uF+rP:unknown"}
+				res1 := s.Peer.Modify(s, m1)
+				r.Op("modify cp=%d up=%d %s -> accepted=%v cause=%d", s.CPSEID, s.UPSEID, m1.Describe(), res1.Accepted, res1.Cause)
+				if res1.Rx == nil || res1.Accepted || !r.AgentAlive() {
+					// (accepted: not this property's business, but the history no longer
+					// says what the session's rules are)
+					r.Inconclusive++
+					return
+				}
+				m2 := &ModSpec{UpdateFAR: []*FARSpec{&was}, Tag: "uF:restated-after-refusal"}
+				res2 := s.Peer.Modify(s, m2)
+				r.Op("modify cp=%d up=%d %s -> accepted=%v cause=%d", s.CPSEID, s.UPSEID, m2.Describe(), res2.Accepted, res2.Cause)
+				r.Skel(fmt.Sprintf("mod:half-way-then-restated:%v", res2.Accepted))
+				if res2.Rx == nil || !res2.Accepted {
+					// the datapath may hold what the refused request wrote: nothing to judge by
+					r.Inconclusive++
+					return
+				}
+				if res2.Accepted {
+					r.Accepted++
+					r.Probe("far-restated-after-half-way-refusal")
+					hc.checkImage(fmt.Sprintf("after an Update FAR that restated FAR 2 of cp=%d as it was before a modification that was refused half-way (its Update FAR had been written)", s.CPSEID), "mod:"+m2.Tag)
+				}
+				continue
+			}
 			m := g.Modification(s)
 			if m.Empty() {
 				continue
